@@ -135,6 +135,20 @@ def run(tier, seed):
             out.sample_from(chunks[0], (1, 37, 1500))
             out.sample_from(chunks[len(chunks) // 2], (11, 20000))
             out.sample_from(files[0], (vlib.count_lines([files[0]]) - 1,))
+    # beyond the listed property: the values every failing call returns - the error algebra of src/errors (Errors.tla: twelve families,
+    # one transparent wrapper; `is` / downcast / Display / source / From / `?` laws explored by TLC over every variant x payload, MC_Errors_N
+    # MUST fail), bound to the code by every variant and constructor built for real with a payload alphabet (Trace_Errors).  A mismatch is
+    # reported as BEYOND-PROPERTY, never as a violation of C12 (C12 speaks about returning, not about what the error says).
+    try:
+        out.add_mc("MC_Errors", vlib.tlc_mc("MC_Errors", workers=4))
+        out.add_mc("MC_Errors_N(negative control)", vlib.tlc_mc("MC_Errors", "MC_Errors_N.cfg", workers=2, coverage=False, expect_violation=True))
+        vlib.build("errs")
+        derr = sub("errs")
+        fe = vlib.run_workers("errs", ["--tier", tier], 1, derr, "errs", stall_s=30)
+        checked_e, classes_e = vlib.tlc_validate("Trace_Errors", vlib.split_chunks(fe, derr, "errc", 4000))
+        out.absorb("Trace_Errors", checked_e, classes_e, label="error algebra", beyond=True)
+    except Stall as st:
+        vlib.stall_beyond(out, st, "errs")
     out.assumptions += [
         "a hang is 'no progress for 10 s in a supervised worker'; a runaway allocation is the abort under RLIMIT_AS = 2 GiB; both are reported with the in-flight call",
         "instance = a small populated Memfs (directories, files, link to directory, link to file, dangling link, link to an ancestor, relative link), rebuilt after every "
